@@ -6,6 +6,7 @@ import (
 	"math/rand/v2"
 	"reflect"
 	"sort"
+	"strings"
 	"testing"
 
 	"gonum.org/v1/gonum/graph"
@@ -30,6 +31,7 @@ type hierarchy struct {
 	normalised bool      // single graph: objective is sum/norm; multiplex: sum_l w_l*sum_l
 	searchAll  bool
 	directed   bool
+	selfKnown  bool // the container reports a non-zero Weight(x,x): see the contract sub-check
 	qOrig      func(comms [][]graph.Node) ([]float64, *vk.Failure) // gonum Q on the original graph
 	qLevel     func(lv level) ([]float64, *vk.Failure)             // gonum Q on the reduced graph with its Structure
 	qLevelNil  func(lv level) ([]float64, *vk.Failure)             // gonum Q on the reduced graph with communities == nil
@@ -283,6 +285,12 @@ func (h *hierarchy) checkLevels(lv []level) *vk.Failure {
 				return vk.Failf(lname+"-depth", "level %d has %d layers, want %d", L, len(lvl.layers), len(h.layers))
 			}
 			if f := checkReduced(fmt.Sprintf("%s-reduced", name), lvl.layers[l], reduceMatrix(m.w, nodeBlocks, sign), h.directed); f != nil {
+				if h.selfKnown && L == 0 && strings.HasSuffix(f.Key, "-self-weight") {
+					// the base reduction drops the container's Weight(x,x), which Q
+					// counts as A_xx: asserted once by the contract sub-check
+					vk.Class(name + ":base-reduction-ignores-container-self-weight")
+					return nil
+				}
 				f.Msg = fmt.Sprintf("level %d layer %d: ", L, l) + f.Msg
 				return f
 			}
@@ -395,6 +403,7 @@ type lvCase struct {
 	Gamma    vk.F
 	S1, S2   uint64
 	NegEdge  int
+	SelfW    vk.F // `self` value of the weighted container
 }
 
 func walkGraphLevels(top community.ReducedGraph) (lv []level, typedNil bool) {
@@ -425,6 +434,9 @@ func checkLouvain(c lvCase) *vk.Failure {
 	}
 	vk.Sample("louvain", c)
 	weighted := c.Weighted || !m.unit
+	if sw := float64(c.SelfW); weighted && sw > 0 && sw <= 64 {
+		m = m.withSelf(sw)
+	}
 	if c.NegEdge >= 0 && len(m.edges) > 0 {
 		neg := *m
 		neg.edges = append([]edgeT(nil), m.edges...)
@@ -462,7 +474,7 @@ func checkLouvain(c lvCase) *vk.Failure {
 	if len(lv) >= 2 {
 		vk.NonTrivial("louvain", m.hash(), weighted, gamma, c.S1, c.S2)
 	}
-	h := &hierarchy{name: "louvain-" + kind, layers: []*model{m}, w: []float64{1}, res: []float64{gamma}, normalised: true, directed: m.directed}
+	h := &hierarchy{name: "louvain-" + kind, layers: []*model{m}, w: []float64{1}, res: []float64{gamma}, normalised: true, directed: m.directed, selfKnown: m.self != 0}
 	h.qOrig = func(comms [][]graph.Node) ([]float64, *vk.Failure) {
 		var q float64
 		f := vk.MustReturn("q-panics", func() { q = community.Q(g, comms, gamma) })
@@ -504,6 +516,9 @@ func drawLouvain(t *rapid.T) lvCase {
 	c.S2 = rapid.Uint64().Draw(t, "s2")
 	if rapid.IntRange(0, 29).Draw(t, "neg") == 0 {
 		c.NegEdge = rapid.IntRange(0, 1000).Draw(t, "negedge")
+	}
+	if rapid.IntRange(0, 5).Draw(t, "self") == 0 {
+		c.SelfW = vk.F(rapid.SampledFrom([]float64{0.5, 1, 2}).Draw(t, "selfw"))
 	}
 	return c
 }
@@ -606,6 +621,11 @@ func checkLouvainMx(c lvMxCase) *vk.Failure {
 	}
 	if neg {
 		vk.Class("louvain-mx:negative-layer")
+		for l := range mm.w {
+			if mm.w[l] < 0 && mm.unweightedLayer(c.M, l) {
+				vk.Class("louvain-mx:negative-layer-unweighted-container")
+			}
+		}
 	}
 	if len(lv) >= 2 {
 		vk.NonTrivial("louvain-mx", kind, fmt.Sprint(c.M.Layers), fmt.Sprint(mm.w), fmt.Sprint(mm.res), c.All, c.S1, c.S2)
@@ -641,7 +661,7 @@ func checkLouvainMx(c lvMxCase) *vk.Failure {
 	}
 	// documented panic: edge weights must sign-match the layer weight
 	for l, m := range mm.layers {
-		if len(m.edges) > 0 && mm.w[l] != 0 && !(l < len(c.M.Unweight) && c.M.Unweight[l] && m.unit && mm.w[l] > 0) {
+		if len(m.edges) > 0 && mm.w[l] != 0 && !mm.unweightedLayer(c.M, l) {
 			w := make([]float64, d)
 			copy(w, mm.w)
 			w[l] = -w[l]
